@@ -422,16 +422,19 @@ func (rc *wsRPCClient) handleSubscriptionNotification(ctx context.Context, rpcRe
 		return
 	}
 
-	// This is a notification that should match an active subscription
-	log.L(ctx).Debugf("RPC[%s] <-- Notification for subscription %s (serverId=%s)", rpcRes.ID.AsString(), s.localID, s.currentSubID)
+	// This is a notification that should match an active subscription.
+	// Note the server ID is the one we just looked the subscription up by (under the lock) - the
+	// currentSubID field of the subscription must not be read here, as it is updated under the
+	// lock by a concurrent reconnect or unsubscribe.
+	log.L(ctx).Debugf("RPC[%s] <-- Notification for subscription %s (serverId=%s)", rpcRes.ID.AsString(), s.localID, subParams.Subscription)
 	select {
 	case s.notifications <- &RPCSubscriptionNotification{
-		CurrentSubID: s.currentSubID,
+		CurrentSubID: subParams.Subscription,
 		Result:       subParams.Result,
 	}:
 	case <-s.ctx.Done():
 		// The subscription has been unsubscribed, or we're closing
-		log.L(ctx).Warnf("RPC[%s] <-- Received subscription event after unsubscribe/close %s (serverId=%s)", rpcRes.ID.AsString(), s.localID, s.currentSubID)
+		log.L(ctx).Warnf("RPC[%s] <-- Received subscription event after unsubscribe/close %s (serverId=%s)", rpcRes.ID.AsString(), s.localID, subParams.Subscription)
 	}
 }
 
